@@ -80,7 +80,8 @@ def _module_entries(t):
 
 def run(cx: Cx):
     fn = cx.fn(DEC + 'Decoder.decode')
-    paths = [p for p in cx.walker.paths(fn, WalkOptions(unroll=1, callee_raises=False, max_paths=60000)) if p.end == 'return']
+    paths = [p for p in cx.walker.paths(fn, WalkOptions(unroll=1, callee_raises=False, max_paths=60000,
+                                                        inline_full=frozenset({'<private>'}))) if p.end == 'return']
     cx.floor('decode() returning paths', len(paths), 64)
     reported = set()
 
